@@ -29,7 +29,7 @@ ANCHORS = ["goose/engine.py:Engine.sample_next_epoch", "goose/engine.py:Engine._
 ASSUMPTIONS = ["time fields of end_epoch/tune calls are recorded but only their epoch index/type is judged",
                "history is judged for kernels that ask for it (needs_history=True)"]
 WORKERS = 16
-TIMEOUT = {"quick": 900, "thorough": 3600}
+TIMEOUT = {"quick": 1500, "thorough": 10800}
 
 
 def fmt(e):
@@ -218,7 +218,7 @@ def run_case(case):
 
 
 def gen_cases(tier, seed):
-    n = 96 if tier == "quick" else 1600
+    n = 96 if tier == "quick" else 900
     cases = []
     for i in range(n):
         rng = rng_for(seed, "c07", i)
